@@ -104,13 +104,18 @@ class PIT(DNAS):
         self.train_dilation = train_dilation
         self.discrete_cost = discrete_cost
         self.full_cost = full_cost
-        # Restore training status after forced `eval()` in convert
+        # Restore training status after forced `eval()` in convert. The layers that are not
+        # converted are shared with `model`: they keep the mode they were found in (e.g. a
+        # sub-module left in eval mode inside a training model)
+        user_flags = {m: m.training for m in model.modules()}
         if self.is_training:
             self.train()
             self.seed.train()
         else:
             self.eval()
             self.seed.eval()
+        for m, flag in user_flags.items():
+            m.training = flag
 
     def forward(self, *args: Any) -> torch.Tensor:
         """Forward function for the DNAS model. Simply invokes the inner model's forward
